@@ -390,11 +390,21 @@ func (node *Node) ProcessBlock(ctx context.Context, block wire.Block) error {
 	// Send updates for relevant txs.
 	for i, tx := range txs {
 		if txsIsNew[i] {
+			isSafe := txsIsSafe[i]
+			if isSafe {
+				// A tx can be new to this block and still have been sent before, when the block that
+				// confirmed it was reorged out. If it was reported unsafe then, it must not turn safe.
+				previous, err := handlersstorage.FetchTxState(ctx, node.store, *tx.TxHash())
+				if err == nil && (previous.State.UnSafe || previous.State.Cancelled) {
+					isSafe = false
+				}
+			}
+
 			txState := &client.Tx{
 				Tx: tx,
 				State: client.TxState{
-					Safe:             txsIsSafe[i],
-					UnSafe:           !txsIsSafe[i],
+					Safe:             isSafe,
+					UnSafe:           !isSafe,
 					Cancelled:        false,
 					UnconfirmedDepth: 0,
 					MerkleProof:      convertMerkleProof(merkleProofs[i], header),
